@@ -1,0 +1,7 @@
+//go:build verif
+
+package vaxis
+
+// VerifAsIndex exposes the RGB to 256-colour fallback for exhaustive
+// checking against the palette oracle. Only built with -tags verif.
+func VerifAsIndex(c Color) Color { return c.asIndex() }
